@@ -1,16 +1,16 @@
 """Per-property claims (source of MANIFEST.json; tools/gen_manifest.py renders it)."""
 HOOK_COMMITS = []
 ENGINES = [
-    {"name": "lean-model", "path": "lean/", "serves_properties": ["C01", "C02", "C03", "C04", "C05", "C06", "C07", "C08", "C09", "C10", "C13", "C18", "C11", "C12", "C16", "C17", "C20"],
+    {"name": "lean-model", "path": "lean/", "serves_properties": ["C01", "C02", "C03", "C04", "C05", "C06", "C07", "C08", "C09", "C10", "C13", "C15", "C18", "C11", "C12", "C16", "C17", "C20"],
      "kind_free_text": "Lean 4 library Dbus (Spec, Model, Proofs, Props) + compiled line-protocol driver dbus-model"},
-    {"name": "tabulator", "path": "gen/", "serves_properties": ["C01", "C02", "C03", "C04", "C05", "C06", "C07", "C08", "C09", "C10", "C13", "C18", "C11", "C12", "C16", "C17", "C20"],
+    {"name": "tabulator", "path": "gen/", "serves_properties": ["C01", "C02", "C03", "C04", "C05", "C06", "C07", "C08", "C09", "C10", "C13", "C15", "C18", "C11", "C12", "C16", "C17", "C20"],
      "kind_free_text": "C translation units that #include repo sources and print finite tables; rendered to lean/Dbus/Generated"},
-    {"name": "h-lib", "path": "harness/lib/", "serves_properties": ["C01", "C02", "C03", "C04", "C05", "C06", "C07", "C08", "C09", "C10", "C13", "C18", "C11", "C12", "C16", "C17", "C20"],
+    {"name": "h-lib", "path": "harness/lib/", "serves_properties": ["C01", "C02", "C03", "C04", "C05", "C06", "C07", "C08", "C09", "C10", "C13", "C15", "C18", "C11", "C12", "C16", "C17", "C20"],
      "kind_free_text": "in-process C harnesses linked against the ASan/UBSan build of the working tree"},
 ]
 PENDING = "not implemented yet in this round (planned, see DESIGN.md §4/§7); no check is claimed"
 NOT_APPLICABLE = {p: PENDING for p in
-                  ["C14", "C15",
+                  ["C14",
                    "C19"]}
 BUS_TIE = ("The bus model (lean/Dbus/Model/Bus: dispatch, driver methods, registry, match delivery, policy gate, pending replies, "
            "disconnect cleanup; method table regenerated from bus/driver.c) is tied to the real dbus-daemon (ASan/UBSan build of the working "
@@ -18,6 +18,26 @@ BUS_TIE = ("The bus model (lean/Dbus/Model/Bus: dispatch, driver methods, regist
            "connection closed by the bus must equal what the model's step emits; disagreements are classified by a trace oracle "
            "written independently of the model. ")
 CHECKS = {
+    "C15": {
+        "text": "Proved in Lean over a ledger model of descriptors as tokens (lean/Dbus/Model/Bus/Fds.lean: what a sendmsg attaches goes to the connection's "
+                "loader, each framed message takes the number its UNIX_FDS field announces from the front, the bus's copies are closed when the message is "
+                "finalized — delivered, refused or undeliverable —, pending ones when the connection's loader is, control-data truncation closes everything "
+                "and drops the sender, a connection that did not negotiate is read with plain read()), on top of the loader (C11) and the bus core, for every "
+                "history of connects, writes with any bytes and any number of descriptors, closes and timeouts: the tokens received are, as a multiset, "
+                "exactly those closed plus those pending, so none is leaked and — tokens being distinct — none closed twice "
+                "(every_descriptor_closed_exactly_once_or_pending); what is pending belongs to a connected client and is within max_message_unix_fds "
+                "(pending_only_for_live_connections_within_limit); once everyone has left everything is closed (baseline_once_everyone_has_left); after the "
+                "pending-descriptor timeout nothing is pending (pending_timeout_leaves_nothing_pending); each message gets exactly the announced number, "
+                "oldest first, the rest staying pending in order, the loader's count and the token list in step (message_gets_announced_descriptors_in_order); "
+                "a message with descriptors is never queued for a connection that did not negotiate (addressed_recipient_must_have_negotiated, "
+                "matched_recipient_must_have_negotiated); more than the loader has room for costs the sender its connection and closes all "
+                "(overflow_closes_everything). " + BUS_TIE + "For C15 every descriptor is a distinct file recognised at the recipients by (device, inode); "
+                "the tokens each delivered message carries are compared with the model's, and after every operation the daemon's /proc/<pid>/fd count minus "
+                "its client sockets must equal the model's number of pending tokens (a leak on any path shows at once); scripted histories exercise "
+                "pending_fd_timeout (500 ms), and a final scenario checks the descriptor table is back at its baseline after all clients have left.",
+        "note": "Partial: recipients that read slowly (descriptors held by queued messages) and max_incoming_unix_fds are outside the model; the library-side "
+                "API (dbus_message_iter_append_basic with 'h', dup on read) is not modelled, only what crosses the sockets and the bus.",
+    },
     "C10": {
         "text": "Proved in Lean for the layer between the sockets and the bus core (lean/Dbus/Model/Bus/Raw.lean: per-connection loaders of C11 feeding "
                 "Dbus.Model.Bus.step): whatever bytes clients write, in whatever chunks and interleaving, the core goes through an ordinary event history "
